@@ -103,88 +103,123 @@ impl<M: SpaceModel> Sweep for SpaceSweep<M> {
         let mut states = 1u64;
         let mut transitions = 0u64;
         for depth in 0..m.max_depth() {
-            // all (history, action) pairs of this level
-            let jobs: Vec<(usize, usize)> = (0..frontier.len()).flat_map(|i| (0..nact).map(move |a| (i, a))).collect();
-            let next_job = AtomicUsize::new(0);
-            let results: Mutex<Vec<(Vec<usize>, Step)>> = Mutex::new(vec![]);
+            // all (history, action) pairs of this level: job j = (frontier[j / nact], action j % nact).
+            // The frontier is kept in lexicographic order, so job order is the lexicographic order
+            // of the extended histories: results are stored by job index in fixed-size chunks and
+            // need neither their history nor a sort (16 bytes per transition instead of ~120).
+            let total = frontier.len() * nact;
+            const CHUNK: usize = 4096;
+            let nchunks = (total + CHUNK - 1) / CHUNK;
+            let next_chunk = AtomicUsize::new(0);
+            // flags: 1 = enabled, 2 = terminal, 4 = has a non-trivial observation, 8 = has violations
+            type Slim = (u64, u64, u8);
+            let chunks: Mutex<Vec<(usize, Vec<Slim>)>> = Mutex::new(Vec::with_capacity(nchunks));
+            let rare: Mutex<Vec<(usize, Vec<(String, String)>)>> = Mutex::new(vec![]);
             let hb = ctx.heartbeat();
+            let frontier_ref = &frontier;
             std::thread::scope(|sc| {
-                for _ in 0..threads.min(jobs.len().max(1)) {
-                    sc.spawn(|| {
-                        let mut local = vec![];
-                        loop {
-                            let j = next_job.fetch_add(1, Ordering::Relaxed);
-                            if j >= jobs.len() {
-                                break;
-                            }
-                            let (i, a) = jobs[j];
+                for _ in 0..threads.min(nchunks.max(1)) {
+                    sc.spawn(|| loop {
+                        let c = next_chunk.fetch_add(1, Ordering::Relaxed);
+                        if c >= nchunks {
+                            break;
+                        }
+                        let lo = c * CHUNK;
+                        let hi = (lo + CHUNK).min(total);
+                        let mut out: Vec<Slim> = Vec::with_capacity(hi - lo);
+                        let mut h: Vec<usize> = vec![];
+                        for j in lo..hi {
                             if let Some(s) = hb {
                                 s.seq.fetch_add(1, Ordering::Relaxed);
                             }
-                            let mut h = frontier[i].clone();
-                            h.push(a);
-                            let r = crate::engine::guard(|| m.run(&h));
-                            match r {
-                                Ok(Some(step)) => local.push((h, step)),
-                                Ok(None) => {}
-                                Err(p) => local.push((
-                                    h,
-                                    Step {
-                                        digest: 0,
-                                        viols: vec![(crate::engine::panic_class(&p), p)],
-                                        nontrivial: None,
-                                        terminal: true,
-                                    },
-                                )),
+                            h.clear();
+                            h.extend_from_slice(&frontier_ref[j / nact]);
+                            h.push(j % nact);
+                            let step = match crate::engine::guard(|| m.run(&h)) {
+                                Ok(Some(step)) => step,
+                                Ok(None) => {
+                                    out.push((0, 0, 0));
+                                    continue;
+                                }
+                                Err(p) => Step { digest: 0, viols: vec![(crate::engine::panic_class(&p), p)], nontrivial: None, terminal: true },
+                            };
+                            let mut flags = 1u8;
+                            if step.terminal {
+                                flags |= 2;
                             }
+                            if step.nontrivial.is_some() {
+                                flags |= 4;
+                            }
+                            if !step.viols.is_empty() {
+                                flags |= 8;
+                                rare.lock().unwrap().push((j, step.viols));
+                            }
+                            out.push((step.digest, step.nontrivial.unwrap_or(0), flags));
                         }
-                        results.lock().unwrap().extend(local);
+                        chunks.lock().unwrap().push((c, out));
                     });
                 }
             });
-            let mut res = results.into_inner().unwrap();
-            // sorting tens of millions of histories runs no implementation code but takes a while:
-            // keep the watchdog's heartbeat going from a ticker thread meanwhile
-            let sorting = std::sync::atomic::AtomicBool::new(true);
-            std::thread::scope(|sc| {
-                sc.spawn(|| {
-                    while sorting.load(Ordering::Relaxed) {
-                        if let Some(s) = hb {
-                            s.seq.fetch_add(1, Ordering::Relaxed);
-                        }
-                        std::thread::sleep(std::time::Duration::from_millis(200));
-                    }
-                });
-                res.sort_by(|a, b| a.0.cmp(&b.0));
-                sorting.store(false, Ordering::Relaxed);
-            });
+            let mut chunks = chunks.into_inner().unwrap();
+            chunks.sort_by_key(|c| c.0);
+            let mut rare = rare.into_inner().unwrap();
+            rare.sort_by_key(|r| r.0);
+            let mut rare = rare.into_iter().peekable();
             let mut next = vec![];
-            for (h, step) in res {
-                transitions += 1;
+            for (c, out) in chunks {
                 if let Some(s) = hb {
                     s.seq.fetch_add(1, Ordering::Relaxed);
                 }
-                let desc = describe(m, &h);
-                ctx.force_case(&desc);
-                ctx.acc.evals += 1;
-                if let Some(n) = step.nontrivial {
-                    ctx.nontrivial(n);
-                }
-                for (sig, detail) in &step.viols {
-                    ctx.violation(sig, detail.clone());
-                }
-                if ctx.acc.samples.len() < 3 && h.len() == depth + 1 && transitions % 7 == 1 {
-                    ctx.acc.samples.push(Value::String(desc));
-                }
-                if step.terminal {
-                    continue;
-                }
-                let d = if m.dedup() { step.digest } else { hash64(&h) };
-                if seen.insert(d) {
-                    states += 1;
-                    next.push(h);
+                for (k, (digest, nontrivial, flags)) in out.into_iter().enumerate() {
+                    if flags & 1 == 0 {
+                        continue;
+                    }
+                    let j = c * CHUNK + k;
+                    transitions += 1;
+                    ctx.acc.evals += 1;
+                    if flags & 4 != 0 {
+                        ctx.nontrivial(nontrivial);
+                    }
+                    let sample = ctx.acc.samples.len() < 3 && transitions % 7 == 1;
+                    if flags & 8 != 0 || sample {
+                        let mut h = frontier[j / nact].clone();
+                        h.push(j % nact);
+                        let desc = describe(m, &h);
+                        if flags & 8 != 0 {
+                            ctx.force_case(&desc);
+                            while let Some((rj, _)) = rare.peek() {
+                                if *rj != j {
+                                    break;
+                                }
+                                let (_, viols) = rare.next().unwrap();
+                                for (sig, detail) in viols {
+                                    ctx.violation(&sig, detail);
+                                }
+                            }
+                        }
+                        if sample {
+                            ctx.acc.samples.push(Value::String(desc));
+                        }
+                    }
+                    if flags & 2 != 0 {
+                        continue;
+                    }
+                    let d = if m.dedup() {
+                        digest
+                    } else {
+                        let mut h = frontier[j / nact].clone();
+                        h.push(j % nact);
+                        hash64(&h)
+                    };
+                    if seen.insert(d) {
+                        states += 1;
+                        let mut h = frontier[j / nact].clone();
+                        h.push(j % nact);
+                        next.push(h);
+                    }
                 }
             }
+            let _ = depth;
             ctx.count_n(&format!("{}:states_new_at_depth_{}", m.name(), depth + 1), next.len() as u64);
             frontier = next;
             if frontier.is_empty() {
